@@ -91,13 +91,9 @@ theorem gap_ge_backoff (bo : Backoffs) (script : List Att) (t : Int) (j : Nat) (
   have := gap_ge_backoff_from bo script 0 t j tj tj' a h0 h1 ha
   simpa using this
 
-theorem verdict_429 (r : Resp) (h : r.status = 429) (hb : r.hdr ≠ .overflow) :
+theorem verdict_429 (r : Resp) (h : r.status = 429) :
     verdict (.http r) = .retry .tooMany (retryAfter r) := by
-  simp [verdict, raises, classify, retryable, h, hb]
-
-theorem verdict_429_bad (r : Resp) (h : r.status = 429) (hb : r.hdr = .overflow) :
-    verdict (.http r) = .raise .other := by
-  simp [verdict, raises, classify, retryable, h, hb]
+  simp [verdict, raises, classify, retryable, h]
 
 /-- After a 429 that asks for `Retry-After` (header or `details.retryAfterSeconds`), the next
     attempt — whenever there is one — starts no earlier than that, whatever the backoff and
@@ -128,9 +124,7 @@ theorem gap_ge_retry_after_from (bo : Backoffs) (enforce : Bool) (script : List 
           rw [htl] at h1
           simp at h1
           subst ha h0
-          by_cases hbad : r.hdr = .overflow
-          · rw [hf, verdict_429_bad r h429 hbad] at hv; cases hv
-          rw [hf, verdict_429 r h429 hbad, hra] at hv
+          rw [hf, verdict_429 r h429, hra] at hv
           injection hv with _ hra'
           subst hra'
           have := slept_ge (effDelay enforce (some ra) b)
@@ -275,44 +269,29 @@ theorem transient_retried_then_escalates (l : List Int) (enforce : Bool) (script
   have := transient_retried_from l enforce script 0 t (by omega) ht
   simpa [request] using this
 
-/-- which HTTP responses are transient: exactly 5xx, 403 and 429 — except (finding F2) a 429 whose
-    Retry-After header overflows `float()` -/
+/-- which HTTP responses are transient: exactly 5xx, 403 and 429 -/
 theorem transient_http_iff (r : Resp) :
     (∃ c ra, verdict (.http r) = .retry c ra) ↔
-      ((r.status = 403 ∨ r.status = 429 ∨ (500 ≤ r.status ∧ r.status < 600)) ∧
-       ¬ (r.status = 429 ∧ r.hdr = .overflow)) := by
+      (r.status = 403 ∨ r.status = 429 ∨ (500 ≤ r.status ∧ r.status < 600)) := by
   constructor
   · rintro ⟨c, ra, h⟩
-    constructor
-    · unfold verdict raises at h
-      by_cases h4 : 400 ≤ r.status
-      · simp only [h4, decide_true, if_true] at h
-        by_cases hr : retryable (classify r.status) = true
-        · unfold classify at hr
-          repeat' split at hr
-          all_goals first | omega | (simp [retryable] at hr)
-        · simp [hr] at h
-      · simp [h4] at h
-    · rintro ⟨h429, hbad⟩
-      rw [verdict_429_bad r h429 hbad] at h; cases h
-  · rintro ⟨h, hnb⟩
+    unfold verdict raises at h
+    by_cases h4 : 400 ≤ r.status
+    · simp only [h4, decide_true, if_true] at h
+      by_cases hr : retryable (classify r.status) = true
+      · unfold classify at hr
+        repeat' split at hr
+        all_goals first | omega | (simp [retryable] at hr)
+      · simp [hr] at h
+    · simp [h4] at h
+  · intro h
     have h4 : raises r.status = true := by simp [raises]; omega
     have hr : retryable (classify r.status) = true := by
       unfold classify
       repeat' split
       all_goals first | rfl | omega
-    have hb : (decide (classify r.status = ErrClass.tooMany) && decide (r.hdr = .overflow)) = false := by
-      by_cases hbad : r.hdr = .overflow
-      case neg => simp [hbad]
-      case pos =>
-        have : r.status ≠ 429 := fun e => hnb ⟨e, hbad⟩
-        have : classify r.status ≠ .tooMany := by
-          unfold classify
-          repeat' split
-          all_goals first | omega | simp
-        simp [this]
     exact ⟨classify r.status, if classify r.status = ErrClass.tooMany then retryAfter r else none,
-      by simp only [verdict, h4, hr, if_true, hb]; simp⟩
+      by simp only [verdict, h4, hr, if_true]⟩
 
 theorem truncSec_gt (x : Int) : x - tickPerSec < truncSec x := by
   unfold truncSec tickPerSec; split <;> omega
@@ -331,7 +310,7 @@ theorem retry_after_http_date (bo : Backoffs) (enforce : Bool) (script : List At
   have hra : retryAfter r = some (if truncSec d < 0 then 0 else truncSec d) := by simp [retryAfter, hd]
   have := gap_ge_retry_after bo enforce script t j tj tj' a r _ h0 h1 ha hf h429 hra
   have hgt := truncSec_gt d
-  refine ⟨⟨.tooMany, retryAfter r, by rw [hf]; exact verdict_429 r h429 (by rw [hd]; simp)⟩, ?_, ?_, ?_⟩ <;>
+  refine ⟨⟨.tooMany, retryAfter r, by rw [hf]; exact verdict_429 r h429⟩, ?_, ?_, ?_⟩ <;>
     (split at this <;> omega)
 
 /-- The truncation is real: a date 2.5 s ahead is waited for 2 s only (zero backoff). -/
@@ -346,17 +325,18 @@ theorem retry_after_garbage_falls_back (bo : Backoffs) (enforce : Bool) (rest : 
     verdict (.http r) = .retry .tooMany none ∧
     (request bo enforce (⟨.http r, lat⟩ :: rest) t).waits.head? = some b := by
   have hv : verdict (.http r) = .retry .tooMany none := by
-    rw [verdict_429 r h429 (by rw [hg]; simp)]; simp [retryAfter, hg]
+    rw [verdict_429 r h429]; simp [retryAfter, hg]
   exact ⟨hv, by simp [request, run_cons, hv, hb, effDelay]⟩
 
-/-- Finding F2 (residual of the F1 repair; the clause "429 is retried" is still false for one
-    garbage form): a `Retry-After` that `float()` turns into ±inf ("inf", "1e999") makes `int()`
-    raise OverflowError inside the retry handler; the request fails at once with that foreign
-    error, whatever backoffs are left. -/
-theorem retry_after_overflow_witness (bo : Backoffs) (enforce : Bool) (rest : List Att) (t : Int)
-    (r : Resp) (lat : Nat) (h429 : r.status = 429) (hbad : r.hdr = .overflow) :
-    request bo enforce (⟨.http r, lat⟩ :: rest) t = ⟨[t], [], .escalated .other, t + lat⟩ := by
-  simp [request, run_cons, verdict_429_bad r h429 hbad]
+/-- F2 repaired: a `Retry-After` that `float()` turns into ±inf ("inf", "1e999") is ignored like
+    any other unparsable value — no foreign exception, the 429 is retried on the configured backoff. -/
+theorem retry_after_overflow_falls_back (bo : Backoffs) (enforce : Bool) (rest : List Att) (t : Int)
+    (r : Resp) (lat : Nat) (b : Int) (h429 : r.status = 429) (hg : r.hdr = .overflow) (hb : bo 0 = some b) :
+    verdict (.http r) = .retry .tooMany none ∧
+    (request bo enforce (⟨.http r, lat⟩ :: rest) t).waits.head? = some b := by
+  have hv : verdict (.http r) = .retry .tooMany none := by
+    rw [verdict_429 r h429]; simp [retryAfter, hg]
+  exact ⟨hv, by simp [request, run_cons, hv, hb, effDelay]⟩
 
 -- non-vacuity: concrete scripts that meet the hypotheses, evaluated by the model
 example : (request (ofList [1024, 512]) false
